@@ -212,3 +212,26 @@ where
         }
     }
 }
+
+#[cfg(feature = "verif")]
+pub mod verif_hooks {
+    //! Read-only dump of the layered index for the external verification harness.
+    use super::Router;
+    use crate::regex_radix_tree::VerifTree;
+
+    #[derive(Debug, Default, Clone)]
+    pub struct VerifRouterDump {
+        /// (bucket path, route id) for every route stored anywhere in the index
+        pub storage: Vec<(String, String)>,
+        /// (bucket path, tree snapshot) for every regex tree of the index
+        pub trees: Vec<(String, VerifTree)>,
+    }
+
+    impl<T> Router<T> {
+        pub fn verif_dump(&self) -> VerifRouterDump {
+            let mut dump = VerifRouterDump::default();
+            self.matcher.verif_walk("", &mut dump);
+            dump
+        }
+    }
+}
